@@ -16,6 +16,10 @@ CHECKS = {
             'Bounded symbolic verification over configurations: the 12 documented options are solver variables read through concretising forks, the real compute_emissions runs for every feasible option combination on symbolic data; every path must return (then switched-off species are proved absent/zero in trajectory and LTO parts) or raise a refusal naming the offending option value; any other exception is a counterexample configuration, replayed through the real Config.load + compute_emissions.',
             'same engine and stubs as C01; classification of an exception as a named refusal is by message text',
             'proxy symbolic execution with symbolic configuration + z3; exceptions as path outcomes', 'DESIGN.md#c11'),
+    'C20': ('model_checking',
+            'Bounded model checking: per-thread instruction lists are generated on every run from the AST of TrajectoryStore.__init__/close (statements touching the owner record are encoded exactly; everything else is an abstract step that may raise), two threads are interleaved at source-line granularity in a z3 transition system unrolled to the total instruction count, and "both threads admitted" must be unsat for the race and for call sequences (construct/close/construct, failed constructor calls). Satisfying schedules are enforced on the real class with real threads by a sys.settrace line scheduler; reachability twins are replayed the same way on every run to validate the encoding.',
+            '2 threads; A up to 2 (thorough 3) constructor calls, B 1 (thorough 2); line-level atomicity as the property states (bytecode-level pre-emption inside a line is outside); AST shapes outside the supported set give exit 2',
+            'AST-generated transition system + z3 BMC over schedules; settrace scheduler replay', 'DESIGN.md#c20'),
 }
 
 NOT_YET = 'check not built yet in this round (planned: see DESIGN.md section 4)'
@@ -30,7 +34,7 @@ def main():
             thorough_cmd=f'./check {pid} --tier thorough',
             evidence_file=f'/verif/evidence/{pid}.json',
             replay_cmd_template=f'./check {pid} --replay {{path}}',
-            engine='symex',
+            engine=('astenc' if pid in ('C20',) else 'symex'),
             level_claimed=dict(category=cat, text=text, design_ref=ref),
             level_note=note,
             technique=tech,
@@ -44,6 +48,7 @@ def main():
                    source_commits=[], add_only=True),
         engines=[
             dict(name='symex', path='vf/symex', serves_properties=sorted(CHECKS), kind_free_text='proxy-based symbolic execution of the real Python functions over z3 reals/ints (DFS path exploration with decision replay, numpy reached through object arrays), obligations discharged by z3, counterexamples replayed on the real code'),
+            dict(name='astenc', path='vf/harness/c20.py', serves_properties=['C20'], kind_free_text='direct SMT encodings generated from the AST of the real source (thread interleavings as a bounded transition system)'),
         ],
         checks=checks,
         notes='All checks rebuild their encoding from the imported /repo/src on every run. exit 0 = held within bounds, 1 = replay-confirmed violation, 2 = inconclusive/harness error (never printed as VIOLATION).',
